@@ -438,12 +438,12 @@ def sites(fx, scope=IN_SCOPE):
                         continue
                     root = root_of(f, op[1][0]) if not op[1][1] else ("place", place_sig(f, op[1]))
                     ok = guarded(fx, f, bi, root, MAXV.get(b, 2**63), guards)
-                    yield f, "cast", a, b, root, ok, s[3]
+                    yield f, "cast", a, b, root, ok, s[3], s
             t = bl["t"]
             if t[0] == "assert" and t[1].startswith("Overflow") and t[7] is not None and fx.tys(t[7]) in ("u8", "u16", "i8", "i16"):
                 if guards is None:
                     guards = guards_for(fx, f)
-                yield f, "arith", fx.tys(t[7]), t[1].split(":")[1], None, window_add_safe(fx, f, bi, t, guards), t[8]
+                yield f, "arith", fx.tys(t[7]), t[1].split(":")[1], None, window_add_safe(fx, f, bi, t, guards), t[8], None
 
 
 def describe(root):
@@ -469,16 +469,35 @@ ARITH_SAFE = {
 
 # narrowing sites whose feature is non-functional at EVERY size on this tree, so that size cannot
 # change its meaning and no failing input can be isolated (reason = what was observed)
+# narrowing sites of features that are non-functional at every size, keyed by what the narrowed value is stored into (not by the function that
+# happens to contain the cast: extracting the loop into a helper must not change the verdict)
 MASKED = {
-    ("compiler::compile_pattern::<impl compiler::Compiler>::compile_array_pattern_binding", "usize->u8"):
-        "rest start index: `const [a,...r]=src` already yields r=[] for a 3-element push-built array",
-    ("compiler::compile_pattern::<impl compiler::Compiler>::compile_array_pattern_assignment", "usize->u8"):
-        "rest start index: same as binding form",
-    ("compiler::compile_stmt::<impl compiler::Compiler>::compile_class_body_with_name", "usize->u8"):
-        "parameter-decorator index: decorators receive `undefined` as index at every position",
-    ("compiler::compile_stmt::<impl compiler::Compiler>::compile_class_method", "usize->u8"):
-        "parameter-decorator index: decorators receive `undefined` as index at every position",
+    ("ApplyParameterDecorator", "param_index"): "parameter-decorator index: decorators receive `undefined` as index at every position",
 }
+
+
+def masked_consumer(fx, f, cast_stmt):
+    """(Op variant, field) when the narrowed value is only stored into that operand of an instruction"""
+    dst = cast_stmt[1][0]
+    if cast_stmt[1][1]:
+        return None
+    holders = {dst}
+    ch = True
+    while ch:
+        ch = False
+        for bl in f.blocks:
+            for s in bl["s"]:
+                if s[0] == "a" and not s[1][1] and s[1][0] not in holders and s[2][0] == "use" and s[2][1][0] in ("c", "m") and not s[2][1][1][1] and s[2][1][1][0] in holders:
+                    holders.add(s[1][0])
+                    ch = True
+    for bl in f.blocks:
+        for s in bl["s"]:
+            if s[0] == "a" and s[2][0] == "agg" and isinstance(s[2][1], dict) and str(s[2][1].get("p", "")).endswith("bytecode::Op"):
+                fields = s[2][1].get("fields") or []
+                for i, o in enumerate(s[2][2]):
+                    if o[0] in ("c", "m") and not o[1][1] and o[1][0] in holders and i < len(fields):
+                        return (s[2][1].get("v"), fields[i])
+    return None
 
 
 def arith_side_condition(fx, f, what):
@@ -523,17 +542,18 @@ def run(tier):
     ck.rule("R1.narrowing", "every narrowing integer cast in src/compiler is range-guarded (or is a u32 instruction offset)", floor=22)
     ck.rule("R2.narrow-arith", "every checked u8/u16 arithmetic in src/compiler is range-safe by a checked side condition", floor=8)
     per = {}
-    for f, kind, a, b, root, ok, sp in sites(fx):
+    for f, kind, a, b, root, ok, sp, stmt in sites(fx):
         if kind == "cast":
             if b == "u32" and a == "usize":
                 ck.instance("R1.narrowing", "%s/%s->%s/%s" % (f.parent, a, b, describe(root)), F.short_span(sp), ok=True)
                 continue
             ident = "%s/%s->%s" % (f.parent, a, b)
             k = per[ident] = per.get(ident, 0) + 1
-            if not ok and (f.parent, "%s->%s" % (a, b)) in MASKED:
+            mc = masked_consumer(fx, f, stmt) if not ok else None
+            if mc in MASKED:
                 ck.rule("R1.masked", "narrowing sites of features that are non-functional at every size (not decided; reason recorded)")
                 ck.instance("R1.masked", "%s#%d" % (ident, k), F.short_span(sp))
-                ck.note("masked %s#%d: %s" % (ident, k, MASKED[(f.parent, "%s->%s" % (a, b))]))
+                ck.note("masked %s#%d (Op::%s.%s): %s" % (ident, k, mc[0], mc[1], MASKED[mc]))
                 continue
             ck.instance("R1.narrowing", "%s#%d" % (ident, k), F.short_span(sp), ok=ok)
             if not ok:
@@ -579,7 +599,7 @@ def run(tier):
     ck.assume("a bytecode chunk has fewer than 2^32 instructions (usize -> u32 jump offsets)")
     # positive control: guard recognizer on the fixture
     ctl = F.load_fixture()
-    res = {(f.path, ok) for f, kind, a, b, root, ok, sp in sites(ctl, scope=("src/lib.rs",)) if kind == "cast" and f.path.startswith("c10::")}
+    res = {(f.path, ok) for f, kind, a, b, root, ok, sp, _st in sites(ctl, scope=("src/lib.rs",)) if kind == "cast" and f.path.startswith("c10::")}
     if ("c10::guarded", True) not in res or ("c10::unguarded", False) not in res:
         ck.closed_fail.append("R1 control failed: %s" % sorted(res))
     return ck.finish()
